@@ -289,6 +289,11 @@ class Translator:
                         and pos[1].id in ("str", "tuple", "list")):
                     return "(ECall %s %s)" % (cstr("isinstance:" + pos[1].id), lst([self.expr(pos[0])]))
                 raise Unsupported("isinstance form")
+            if f.id in getattr(self, "assigned", ()):
+                # a call of a LOCAL name bound by an assignment in this function (`scorer = check_scoring(..)`;
+                # `scorer(..)`): the callee is the VALUE of that name - a call of "call" with it as first argument
+                # (a parameter that is called keeps its name as callee: it is fixed for the whole run)
+                return "(ECall %s %s)" % (cstr("call" + suffix), lst(["(EVar %s)" % cstr(f.id)] + args))
             return "(ECall %s %s)" % (cstr(f.id + suffix), lst(args))
         if (isinstance(f, ast.Attribute) and isinstance(f.value, ast.Call) and isinstance(f.value.func, ast.Name)
                 and f.value.func.id == "super" and not f.value.args and not f.value.keywords):
@@ -340,6 +345,8 @@ class Translator:
                 return "(EConst (VS %s))" % cstr("<type:%s>" % e.id)    # a type object used as a value (dtype=bool)
             if e.id in CLASS_NAMES and e.id not in self.locals:
                 return "(EConst (VS %s))" % cstr("<class:%s>" % e.id)
+            if e.id in getattr(self, "module_classes", ()) and e.id not in self.locals:
+                return "(EConst (VS %s))" % cstr("<class:%s>" % e.id)    # a class of the same module used as a value
             return "(EVar %s)" % cstr(e.id)
         if isinstance(e, ast.Constant):
             return const(e.value)
@@ -1084,6 +1091,7 @@ def imported_names(tree):
 def translate(path, names):
     tree = ast.parse(open(path).read())
     tr = Translator(imported_names(tree))
+    tr.module_classes = {n.name for n in tree.body if isinstance(n, ast.ClassDef)}
     found = {}
     defs_ = []
     for n in tree.body:
@@ -1111,6 +1119,7 @@ def translate(path, names):
                 params.append(tr.kwarg)
             tr.function = n
             tr.locals = set(params) | {x.id for x in ast.walk(n) if isinstance(x, ast.Name) and isinstance(x.ctx, ast.Store)}
+            tr.assigned = tr.locals - set(params)
             tr.cur_state = {}
             tr.handles = set()
             tr.ntemp = 0
